@@ -469,9 +469,12 @@ def gen_case(rng, want_nosemi=False, nonascii_tail=False, force_hist=None, tight
     exporters = sorted(m for m, cs in final_mods.items() if need in cs)
     if role == "Hidden" and private_in:
         exporters = [private_in]
+    ifaces = {m: list(cs) + ([cn("Hidden")] if m == private_in else []) + ["IThing"] for m, cs in final_mods.items()}
+    if any(l.startswith(("src Scratch ", "upd Scratch ")) for l in lines):
+        ifaces["Scratch"] = ["ScratchPad"]
     meta["history"] = hist
     meta["names"] = ("long" if world["long_classes"] else "short") + "-class/" + ("long" if world["long_mods"] else "short") + "-module"
-    return {"lines": lines, "doc": doc, "need": need, "exporters": exporters, "meta": meta}
+    return {"lines": lines, "doc": doc, "need": need, "exporters": exporters, "meta": meta, "ifaces": ifaces, "role": role}
 
 
 # --- independent splice ---------------------------------------------------------------------
@@ -550,6 +553,16 @@ def parse_eval(ans):
             "comments": [] if m.group(5) == "-" else m.group(5).split(",")}
 
 
+def available_names(c):
+    """Names a completion must not import again: members of every import + the document's own toplevels."""
+    names = set()
+    for imp in (c["base"] or {}).get("imports", []):
+        names.update(imp.rsplit(":", 1)[1].split("+"))
+    for m in re.finditer(r"\b(?:class|interface)\s+([A-Z]\w*)", strip_comments(c["doc"])):
+        names.add(m.group(1))
+    return names
+
+
 def judge(doc, base, after, name, module, edits_reason):
     """Property oracle for one applied action. Returns list of failure strings."""
     bad = []
@@ -570,6 +583,16 @@ def judge(doc, base, after, name, module, edits_reason):
         bad.append(f"class {name} is still reported as unresolved after the import was added")
     if after["tops"] != base["tops"]:
         bad.append("top-level declarations changed")
+    # otherwise the same program: no diagnostic that was not there before (other than about `name`
+    # itself, which is now resolved and therefore checked for the first time)
+    old_msgs = [m for k, _, m in base["errs"] if k != "S"]
+    for k, _, m in after["errs"]:
+        if k == "S" or k == ukey:
+            continue
+        if m in old_msgs:
+            old_msgs.remove(m)
+        elif name not in m:
+            bad.append("new diagnostic after applying the edit: " + m[:120])
     if sorted(after["comments"]) != sorted(base["comments"]):
         bad.append("comments lost or changed")
     return bad
@@ -735,6 +758,28 @@ class DocRunner:
                 n = len(base)
                 dl.append(f"aimp {locs} {fmt_list(list(range(1, n + 1)))} {n + 1} {n + 1}={after[-1][1]}")
                 keep.append((c, a))
+        # completion decision: model `completionAdditionalEdits` vs which real items carry an edit
+        cl, ckeep = [], []
+        for c in cases:
+            for avail, pairs, got in c.get("cdec", []):
+                if pairs:
+                    cl.append(f"cdec {','.join(avail) or '-'} 0 {','.join(n for n, _ in pairs)}")
+                    ckeep.append((c, pairs, got))
+        if cl:
+            rc, mo, err = common.run_exec(common.driver_bin(PROP), [], cl)
+            for (c, pairs, got), line, m in zip(ckeep, cl, mo + ["<missing>"] * len(cl)):
+                self.stats["tie_cdec"] = self.stats.get("tie_cdec", 0) + 1
+                real = "".join("1" if p in got else "0" for p in pairs)
+                if m == real:
+                    self.stats["tie_cdec_ok"] = self.stats.get("tie_cdec_ok", 0) + 1
+                else:
+                    payload = {"protocol": "cdec", "label": label, "doc": c["doc"], "ops": c["lines"], "model_op": line,
+                               "pairs": pairs, "impl": real, "model": m,
+                               "broken": "correspondence `cdec` (completionAdditionalEdits vs lib.rs:668-714)"}
+                    if self.defer:
+                        self.deferred.append(("tie", payload))
+                    elif len(self.ctx.violations) < 3:
+                        self.ctx.violation("model/implementation disagreement on protocol cdec (completion additional edits)", payload, no_input=True)
         if not dl:
             return
         rc, mo, err = common.run_exec(common.driver_bin(PROP), [], dl)
@@ -772,7 +817,7 @@ class DocRunner:
                 acts.append({"kind": "qa", "query": ql, "name": nm, "module": None, "edits": [], "spliced": None,
                              "reason": f"quick fixes offered for `{nm}`: from {sorted(t for t in titles if t)}; modules exporting it: {exp}"})
         else:
-            m = re.match(r"^n=(\d+) (\S+)$", ans)
+            m = re.match(r"^n=(\d+) (\S+)(?: plain=(\S+))?$", ans)
             if not m:
                 acts.append({"kind": kind, "query": ql, "name": nm, "module": None, "edits": [], "spliced": None,
                              "reason": "unreadable completion answer " + ans[:60]})
@@ -786,6 +831,29 @@ class DocRunner:
                     (chosen if unhex(lh).decode() == nm else others).append((lh, dh, eh))
                 for lh, dh, eh in chosen + others[:2]:
                     acts.append(self.mk_action(c, "qc", ql, unhex(lh).decode(), None, eh, unhex(dh).decode()))
+            # which completion items carry an auto-import edit (lib.rs:686-698): exactly the classes /
+            # interfaces of the other workspace modules whose name is not yet available in the document
+            # (imported from anywhere, or declared in it)
+            if int(m.group(1)) > 0 and c.get("ifaces") is not None:
+                got = set()
+                for it in ([] if m.group(2) == "-" else m.group(2).split(";")):
+                    lh, dh, eh = it.split("|")
+                    try:
+                        txt = " ".join(t for _, t in parse_edits(eh))
+                    except ValueError:
+                        txt = ""
+                    mm = re.search(r"import\s*\{\s*(\w+)\s*\}\s*from\s*([\w.]+);", txt)
+                    got.add((unhex(lh).decode(), mm.group(2) if mm and mm.group(1) == unhex(lh).decode() else "?"))
+                avail = available_names(c)
+                want = {(n, M) for M, ns in c["ifaces"].items() for n in ns if n not in avail}
+                c.setdefault("cdec", []).append((sorted(avail), sorted((n, M) for M, ns in c["ifaces"].items() for n in ns), got))
+                self.stats["completion_sets"] = self.stats.get("completion_sets", 0) + 1
+                if got != want:
+                    acts.append({"kind": "qc", "query": ql, "name": nm, "module": None, "edits": [], "spliced": None,
+                                 "reason": f"completion items carrying an auto-import edit: {sorted(got - want)} unexpected, {sorted(want - got)} missing "
+                                           f"(names already available in the document: {sorted(avail)})"})
+                else:
+                    self.stats["completion_sets_ok"] = self.stats.get("completion_sets_ok", 0) + 1
         return acts
 
     def mk_action(self, c, kind, ql, name, module, eh, title):
@@ -821,6 +889,10 @@ class DocRunner:
                 if a["kind"] == "qc" and module not in c["exporters"] and a["name"] == c["need"]:
                     bad.append(f"completion imports `{a['name']}` from `{module}` which does not export it")
                 a["after"] = after
+            if a.get("module") or (a.get("after") and a.get("name")):
+                tgt = a.get("module") or module
+                if any(i.rsplit(":", 1)[0] == tgt for i in c["base"]["imports"]):
+                    self.stats["target_module_already_imported"] = self.stats.get("target_module_already_imported", 0) + 1
             if bad:
                 self.fail(c, a, bad, label, probe_of)
             else:
@@ -1047,6 +1119,47 @@ def parse_ilocs(text, ans):
     return out
 
 
+def check_module_tie(ctx, runner, pairs, label, stats):
+    """Model `moduleEdits` (imports + toplevels incl. the Err path, Model/DifferText.lean) vs the real
+    `module_diff_edits` on whole module pairs (comment-free): exact equality of the edit lists."""
+    lines = []
+    for a, b in pairs:
+        lines += [f"mdiff {hexs(a)} {hexs(b)}", f"ilocs {hexs(a)}", f"ilocs {hexs(b)}", f"tlocs {hexs(a)}", f"tlocs {hexs(b)}"]
+    out = runner.harness(lines)
+    dl, keep = [], []
+    for i, (a, b) in enumerate(pairs):
+        real = out[5 * i]
+        parts = [parse_ilocs(a, out[5 * i + 1]), parse_ilocs(b, out[5 * i + 2]), parse_ilocs(a, out[5 * i + 3]), parse_ilocs(b, out[5 * i + 4])]
+        if real == "skip" or any(p is None for p in parts) or "4294967295" in real:
+            continue
+        args = []
+        for old, new in ((parts[0], parts[1]), (parts[2], parts[3])):
+            ids, table = {}, {}
+            def ident(e):
+                k = (e[0], e[2])
+                if k not in ids:
+                    ids[k] = len(ids) + 1
+                table[ids[k]] = e[1]
+                return ids[k]
+            oi, ni = [ident(e) for e in old], [ident(e) for e in new]
+            args += [";".join(e[0] for e in old) or "-", fmt_list(oi), fmt_list(ni),
+                     ",".join(f"{k}={v}" for k, v in sorted(table.items())) or "-"]
+        dl.append("medits " + " ".join(args))
+        keep.append((a, b, real))
+    if not dl:
+        return
+    rc, mo, err = common.run_exec(common.driver_bin(PROP), [], dl)
+    for (a, b, real), line, m in zip(keep, dl, mo + ["<missing>"] * len(dl)):
+        stats["tie_module_pairs"] = stats.get("tie_module_pairs", 0) + 1
+        if real != m:
+            if len(ctx.violations) < 3:
+                ctx.violation("model/implementation disagreement on protocol medits (compute_module_diff: imports + toplevels, Err paths)",
+                              {"protocol": "medits", "label": label, "old_text": a, "new_text": b, "impl": real, "model": m, "ops": [line],
+                               "broken": "correspondence `medits` (Model/DifferText.lean moduleEdits vs ast_differ.rs:362-409)"}, no_input=True)
+        else:
+            stats["tie_module_ok"] = stats.get("tie_module_ok", 0) + 1
+
+
 def check_import_tie(ctx, runner, pairs, label, stats):
     lines = []
     for a, b in pairs:
@@ -1226,13 +1339,15 @@ def run(ctx):
             batch = [gen_mdiff_pair(rng) for _ in range(min(500, nmd - done))]
             done += len(batch)
             check_mdiffs(ctx, runner, batch, f"generated module pairs seed={ctx.seed}", stats)
+            if not ctx.violations:
+                check_module_tie(ctx, runner, batch, f"generated module pairs seed={ctx.seed}", stats)
         nti = ctx.scale(1500, 30000)
         done = 0
         while done < nti and len(ctx.violations) < 1:
             batch = [gen_import_pair(rng) for _ in range(min(500, nti - done))]
             done += len(batch)
             check_import_tie(ctx, runner, batch, f"generated import-list pairs seed={ctx.seed}", stats)
-    ev_docs = stats["actions"] + stats["md_pairs"] - stats["md_skipped"] + stats["tie_import_pairs"]
+    ev_docs = stats["actions"] + stats["md_pairs"] - stats["md_skipped"] + stats["tie_import_pairs"] + stats.get("tie_module_pairs", 0) + stats.get("completion_sets", 0)
     ctx.cov.update({
         "evaluations": stats["diff_lines"] + ev_docs,
         "distinct_nontrivial": stats["nontrivial_pairs"] + len(stats["distinct_actions"]) + len(stats["md_nontrivial"]),
@@ -1252,8 +1367,12 @@ def run(ctx):
         "module_diff_pairs": stats["md_pairs"], "module_diff_pairs_ok": stats["md_ok"],
         "module_diff_pairs_skipped_invalid": stats["md_skipped"], "module_diff_edit_kind_histogram": stats["md_kinds"],
         "module_diff_pairs_with_2plus_edits": len(stats["md_nontrivial"]),
-        "traces_validated_against_impl": stats["diff_lines"] + stats["tie_import_ok"] + stats["tie_aimp_ok"],
+        "traces_validated_against_impl": stats["diff_lines"] + stats["tie_import_ok"] + stats["tie_aimp_ok"] + stats.get("tie_module_ok", 0) + stats.get("tie_cdec_ok", 0),
+        "text_model_module_pairs": stats.get("tie_module_pairs", 0), "text_model_module_pairs_equal": stats.get("tie_module_ok", 0),
         "text_model_import_pairs": stats["tie_import_pairs"], "text_model_import_pairs_equal": stats["tie_import_ok"],
+        "completion_edit_sets_checked": stats.get("completion_sets", 0), "completion_edit_sets_as_expected": stats.get("completion_sets_ok", 0),
+        "completion_decision_model_ties": stats.get("tie_cdec", 0), "completion_decision_model_ties_equal": stats.get("tie_cdec_ok", 0),
+        "actions_whose_module_was_already_imported_with_other_members": stats.get("target_module_already_imported", 0),
         "text_model_auto_import_actions": stats["tie_aimp"], "text_model_auto_import_actions_equal": stats["tie_aimp_ok"],
         "diff_pairs": stats["diff_lines"], "distinct_pairs": len(stats["distinct_pairs"]),
         "nontrivial_pairs": stats["nontrivial_pairs"],
@@ -1278,7 +1397,10 @@ def run(ctx):
         "the Python oracle uses an independent positional reading",
         "not modelled (oracle only): pretty-printing of the inserted import, `Change::to_edit` text assembly, "
         "Location arithmetic on real tokens, ServerState bookkeeping",
-    ], extra={"partial_theorems": [], "pending": []})
+    ], extra={"partial_theorems": [], "pending": [
+        "one composed text statement for compute_module_diff's whole edit list (import edits followed by toplevel edits): today "
+        "text_lift / import_edits_text / toplevel_err_text / toplevel_edits_eq cover each list separately and the `medits` tie "
+        "+ module-pair oracle cover the concatenation"]})
 
 
 def replay(ctx, path):
